@@ -21,6 +21,7 @@ fn main() {
                 "payload" => areas::payload::replay(&cases, &mut out),
                 "h1" => areas::h1::replay(&cases, &mut out),
                 "ws" => areas::ws::replay(&cases, &mut out),
+                "totality" => areas::totality::replay(&cases, &mut out),
                 "client" => areas::client::replay(&cases, &mut out),
                 "h2" => areas::h2area::replay(&cases, &mut out),
                 "coding" => areas::coding::replay(&cases, &mut out),
